@@ -41,6 +41,9 @@ def vocabulary():
         {'op': 'create_solution_from', 'src': 'A', 'solute': 'nacl', 'conc': '0.04 M', 'solvent': 'dmso', 'q': '1.5 mL',
          'name': 'F'},
         {'op': 'dilute', 'obj': 'A', 'solute': 'nacl', 'conc': '0.15 M', 'solvent': 'dmso'},
+        # more than its source (capacity 20 mL) could hold; needs B to hold some nacl first
+        {'op': 'create_solution_from', 'src': 'B', 'solute': 'nacl', 'conc': '0.001 M', 'solvent': 'water', 'q': '25 mL',
+         'name': 'F'},
         # a dilution that renames the container inside the recipe
         {'op': 'dilute', 'obj': 'A', 'solute': 'nacl', 'conc': '0.12 M', 'solvent': 'water', 'new_name': 'A2'},
     ]
@@ -102,6 +105,7 @@ def add_step(pp, subs, world, handles, recipe, act):
             return base
         o = base[e1.selectors.ev(r[1])]
         for sub in r[2:]:
+            _ = (o.shape, o.size)
             o = o[e1.selectors.ev(sub)]
         return o
     op = act['op']
